@@ -44,6 +44,29 @@ theorem temp_ne_flag {f : String} (hf : f ∈ flagNames) (a b c : Nat) : (temp a
   simp [flagNames] at hf
   rcases hf with rfl | rfl | rfl | rfl | rfl | rfl <;> simp at hr
 
+theorem ltemp_name_toList (a b : Nat) : ∃ rest, (ltemp a b).name.toList = 't' :: rest := by
+  simp [ltemp, X86Lift.scalar, String.toList_append]
+
+theorem ltemp_ne_rName {i : Nat} (hi : i < 16) (a b : Nat) : (ltemp a b).name ≠ rName i := by
+  intro h
+  obtain ⟨rest, hr⟩ := ltemp_name_toList a b
+  have h2 := rName_head_fin ⟨i, hi⟩
+  rw [← h, hr] at h2
+  simp at h2
+
+theorem ltemp_ne_flag {f : String} (hf : f ∈ flagNames) (a b : Nat) : (ltemp a b).name ≠ f := by
+  intro h
+  obtain ⟨rest, hr⟩ := ltemp_name_toList a b
+  rw [h] at hr
+  simp [flagNames] at hf
+  rcases hf with rfl | rfl | rfl | rfl | rfl | rfl <;> simp at hr
+
+/-- the temporary of `operand_load` and the temporaries of the builders (same instruction) have different names -/
+theorem ltemp_ne_temp (a b s c : Nat) : (ltemp a b).name ≠ (temp a s c).name := by
+  intro h
+  have := congrArg String.toList h
+  simp [ltemp, temp, X86Lift.scalar, String.toList_append] at this
+
 theorem flags_distinct : ("CF" : String) ≠ "ZF" ∧ ("CF" : String) ≠ "SF" ∧ ("CF" : String) ≠ "OF" ∧ ("ZF" : String) ≠ "SF"
     ∧ ("ZF" : String) ≠ "OF" ∧ ("SF" : String) ≠ "OF" := by decide
 
